@@ -35,9 +35,6 @@ fn c17_blocks_le_margin_and_within_one_step() {
 #[kani::stub(std::backtrace::Backtrace::capture, stub_backtrace)]
 fn c17_transactions_le_margin_and_within_one_step() {
     let (tip, sec, step): (u64, u64, u64) = (kani::any(), kani::any(), kani::any());
-    // step == u64::MAX makes BlockRange::from_block_number(step) overflow its (unused) range end:
-    // decided by the separate harness c17_transactions_no_panic_any_step
-    kani::assume(step < u64::MAX);
     let cfg = CardanoTransactionsSigningConfig {
         security_parameter: BlockNumberOffset(sec),
         step: BlockNumber(step),
